@@ -86,7 +86,10 @@ impl InstructionHeader {
         let Some(approved_at) = self.approved_at() else {
             return Ok(false);
         };
-        let executable_at = approved_at.saturating_add_unsigned(delay as u64);
+        // If `approved_at + delay` is not representable, the delay cannot have passed yet.
+        let Some(executable_at) = approved_at.checked_add_unsigned(delay as u64) else {
+            return Ok(false);
+        };
         Ok(now >= executable_at)
     }
 
